@@ -5,5 +5,6 @@ CONSTANTS
   MaxIgnore = 2
   MaxMatchConds = 3
   MaxIgnoreConds = 3
+  Reduced = FALSE
   WithAlt = TRUE
 CHECK_DEADLOCK FALSE
